@@ -453,6 +453,8 @@ def inline_helpers(facts, make_stable=None):
     is written between the definition and a use)."""
     ndes = desugar_algorithms(facts)
     ndes += desugar_minmax(facts)
+    ndes += split_local_aggregates(facts)
+    ndes += desugar_block_ops(facts)
     inl = Inliner(facts)
     inl.orig = copy.deepcopy({fid: facts['functions'][fid] for fid in inl.helpers})
     removed = inl.run()
@@ -463,6 +465,164 @@ def inline_helpers(facts, make_stable=None):
                 simplify_addr(F)
     return facts, {'helpers': sorted(facts_name for facts_name in removed), 'sites': sum(inl.inlined_sites.values()),
                    'locals_propagated': nprop, 'algorithms_desugared': ndes}
+
+
+# ---- std algorithms over raw byte ranges are the C block operations ---------------------------------
+def desugar_block_ops(facts):
+    """On raw `char*` ranges: std::fill_n(p, n, c) is memset(p, c, n); std::fill(p, q, c) is memset(p, c, q - p);
+    std::copy(p, q, out) is memmove(out, p, q - p) when the ranges do not overlap forwards - the rules ask for exactly that
+    (`out <= p`); std::copy_n(p, n, out) likewise.  The zone obligations speak about memset / memmove."""
+    def ptr(a):
+        while isinstance(a, dict) and a.get('k') in ('cast', 'paren'):
+            a = a.get('e')
+        return isinstance(a, dict) and (a.get('tk') == 'ptr' or 'char *' in (a.get('ty') or ''))
+
+    def minus(q, p_):
+        # q - p; `p + n - p` folds to n
+        q0 = q
+        while isinstance(q0, dict) and q0.get('k') in ('cast', 'paren'):
+            q0 = q0.get('e')
+        if isinstance(q0, dict) and q0.get('k') == 'bin' and q0.get('op') == '+' and json_eq(q0.get('l'), p_):
+            return copy.deepcopy(q0['r'])
+        return {'k': 'bin', 'op': '-', 'l': copy.deepcopy(q), 'r': copy.deepcopy(p_), 'tk': 'int', 'ty': 'long'}
+    n = 0
+    for F in facts['functions'].values():
+        for B in F['blocks']:
+            for e in B['ev']:
+                if e.get('k') != 'call' or not (e.get('name') or '').startswith('std::'):
+                    continue
+                last = _lastname(e.get('name'))
+                a = e.get('args') or []
+                new = None
+                if last == 'fill_n' and len(a) == 3 and ptr(a[0]):
+                    new = ('memset', [a[0], a[2], a[1]])
+                elif last == 'fill' and len(a) == 3 and ptr(a[0]):
+                    new = ('memset', [a[0], a[2], minus(a[1], a[0])])
+                elif last == 'copy' and len(a) == 3 and ptr(a[0]) and ptr(a[2]):
+                    new = ('memmove', [a[2], a[0], minus(a[1], a[0])])
+                elif last == 'copy_n' and len(a) == 3 and ptr(a[0]) and ptr(a[2]):
+                    new = ('memmove', [a[2], a[0], a[1]])
+                if new:
+                    e['name'] = new[0]
+                    e['args'] = new[1]
+                    e.pop('fn', None)
+                    e['desugared_from'] = last
+                    n += 1
+    return n
+
+
+# ---- scalar replacement of small local aggregates ---------------------------------------------------
+def split_local_aggregates(facts):
+    """A local of a plain struct type (scalar fields, no bases, no written methods) that did not exist at design time and is
+    only ever used field by field - `v.f`, plus `T v;` / `T v{}` / `v = T()` - is replaced by one local per field, named
+    like the field.  `v = T()` becomes the assignments of the default member initialisers (zero without one).  Rules that
+    know `bool flag` then see `flag` again when somebody groups such flags into `struct {..} state`."""
+    here = os.path.dirname(os.path.abspath(__file__))
+    try:
+        import json as _json
+        known = _json.load(open(os.path.join(here, 'design_time_locals.json')))
+    except (OSError, ValueError):
+        known = {}
+    classes = facts.get('classes') or {}
+    if isinstance(classes, list):
+        classes = {c.get('name'): c for c in classes}
+    n = 0
+    for fid, F in facts['functions'].items():
+        old_locals = set(known.get(fid) or known.get(F.get('name') or '') or [])
+        cands = {}
+        for B in F['blocks']:
+            for e in B['ev']:
+                if e.get('k') == 'decl' and e.get('tk') == 'record' and e['n'] not in old_locals and '#' not in e['n'] and '@' not in e['n']:
+                    ty = (e.get('ty') or '').replace('const ', '').strip()
+                    cls = None
+                    for cn, c in classes.items():
+                        if cn == ty or cn.endswith('::' + ty):
+                            cls = c
+                    if cls and not cls.get('bases') and not cls.get('methods') and cls.get('fields') and \
+                            all(fd.get('tk') in ('bool', 'int', 'uint', 'enum', 'ptr', 'char') for fd in cls['fields']):
+                        cands[e['n']] = cls
+        if not cands:
+            continue
+        existing = {e['n'] for B in F['blocks'] for e in B['ev'] if e.get('k') == 'decl'} | {p_['n'] for p_ in F.get('params') or []}
+        for v, cls in list(cands.items()):
+            fields = {fd['n']: fd for fd in cls['fields']}
+            short = {fn_: fn_.rsplit('::', 1)[-1] for fn_ in fields}
+            if any(sn in existing for sn in short.values()):
+                continue
+            ok = True
+
+            def is_default_ctor(d):
+                while isinstance(d, dict) and d.get('k') in ('cast', 'paren', 'temp', 'bind'):
+                    d = d.get('e')
+                return isinstance(d, dict) and d.get('k') in ('ctor', 'call', 'init') and not (d.get('args') or []) and \
+                    (cls['name'] in (d.get('name') or d.get('ty') or '') or (d.get('ty') or '').endswith(cls['name'].rsplit('::', 1)[-1]))
+
+            def whole_uses(d, parent_ok=False):
+                """number of mentions of v that are not the base of a field access"""
+                cnt = 0
+                if isinstance(d, dict):
+                    if d.get('k') == 'var' and d.get('n') == v:
+                        return 1
+                    if d.get('k') == 'mem' and isinstance(d.get('b'), dict) and d['b'].get('k') == 'var' and d['b'].get('n') == v and d.get('n') in fields:
+                        return 0
+                    for kk, vv in d.items():
+                        if kk.startswith('_'):
+                            continue
+                        cnt += whole_uses(vv)
+                elif isinstance(d, list):
+                    for x in d:
+                        cnt += whole_uses(x)
+                return cnt
+            for B in F['blocks']:
+                for e in B['ev']:
+                    if e.get('k') == 'decl' and e['n'] == v:
+                        if e.get('init') is not None and not is_default_ctor(e['init']):
+                            ok = False
+                        continue
+                    if e.get('k') == 'call' and e.get('op') == '=' and isinstance(e.get('recv'), dict) and e['recv'].get('k') == 'var' and \
+                            e['recv'].get('n') == v and len(e.get('args') or []) == 1 and is_default_ctor(e['args'][0]):
+                        continue
+                    if whole_uses({kk: vv for kk, vv in e.items() if not kk.startswith('_')}):
+                        ok = False
+                if 'term' in B and whole_uses(B['term']):
+                    ok = False
+            if not ok:
+                continue
+
+            def defaults(line, src):
+                out = []
+                for fn_, fd in fields.items():
+                    init = copy.deepcopy(fd.get('init')) if fd.get('init') is not None else ({'k': 'bool', 'v': False} if fd.get('tk') == 'bool' else {'k': 'int', 'v': 0})
+                    out.append((short[fn_], fd, init))
+                return out
+
+            def repl(d):
+                if d.get('k') == 'mem' and isinstance(d.get('b'), dict) and d['b'].get('k') == 'var' and d['b'].get('n') == v and d.get('n') in fields:
+                    fd = fields[d['n']]
+                    return {'k': 'var', 'n': short[d['n']], 'vk': 'local', 'tk': fd.get('tk'), 'ty': fd.get('ty')}
+                return None
+            for B in F['blocks']:
+                nev = []
+                for e in B['ev']:
+                    if e.get('k') == 'decl' and e['n'] == v:
+                        for sn, fd, init in defaults(e.get('line'), e.get('src')):
+                            nev.append({'k': 'decl', 'n': sn, 'ty': fd.get('ty'), 'tk': fd.get('tk'), 'init': init, 'line': e.get('line'), 'src': e.get('src')})
+                        continue
+                    if e.get('k') == 'call' and e.get('op') == '=' and isinstance(e.get('recv'), dict) and e['recv'].get('k') == 'var' and e['recv'].get('n') == v:
+                        for sn, fd, init in defaults(e.get('line'), e.get('src')):
+                            nev.append({'k': 'asg', 'op': '=', 'l': {'k': 'var', 'n': sn, 'vk': 'local', 'tk': fd.get('tk'), 'ty': fd.get('ty')}, 'r': init,
+                                        'line': e.get('line'), 'src': e.get('src')})
+                        continue
+                    if e.get('k') == 'call' and e.get('ctor') and not (e.get('args') or []) and cls['name'] in (e.get('name') or ''):
+                        continue                    # the constructor call of `T v;` / of the temporary in `v = T()`
+                    nev.append({kk: (_map(vv, repl) if not kk.startswith('_') else vv) for kk, vv in e.items()})
+                B['ev'] = nev
+                if 'term' in B:
+                    B['term'] = _map(B['term'], repl)
+            existing |= set(short.values())
+            F.setdefault('desugared', []).append('struct ' + v)
+            n += 1
+    return n
 
 
 # ---- copy propagation of new single-definition locals --------------------------------------------
